@@ -1,5 +1,8 @@
 CONSTANTS
-  MaxC = 9
+  MaxC = 4
+  WithPermuted = TRUE
+  FullStart = TRUE
+  MaxViol = 2
   Faults = {"serFail", "deFail", "deCorrupt", "deDropsHidden", "jsonSloppy", "jsonDiscrete", "eqSubset", "eqNotReflexive", "eqPanics", "nondetFit"}
 SPECIFICATION Spec
 INVARIANT InvSound
